@@ -2,7 +2,7 @@
 import re, os, glob, collections
 from .. import textlab as TL, front
 from ..oracle import ref as R
-from ..mirsym.interp import PathCtx, mkref, show, Panic
+from ..mirsym.interp import Unsupported, PathCtx, mkref, show, Panic
 
 def native_vs_reference(text):
     """native tokenizer + parser (both modes) against the reference on one concrete string; returns list of differences"""
@@ -134,6 +134,8 @@ def run(chk):
             r = I.run(I.fn('parse_extended_formula'), [mkref(s)])
             mir = ('ok', show(r.fields[0].fields[0].chars)) if r.variant == 0 else ('err',)
         except Panic as e: mir = ('panic', str(e))
+        except Unsupported as e:
+            chk.obligation(f'C05/corpus through the MIR interpreter [unsupported: {str(e)[:150]}]', 'translator-validation', 'inconclusive'); break
         nat = front.native([{'op': 'text', 'what': 'parse_ext', 'text': s}])[0]
         natv = ('ok', nat['ok']['s']) if 'ok' in nat else ('err',) if 'err' in nat else ('panic', nat.get('panic'))
         diffs = native_vs_reference(s)
